@@ -11,7 +11,7 @@ d = json.load(open(p))
 d['findings'].append({"property": prop, "status": "fixed", "signature": sig, "commit": h, "what": f"fixed: property={prop} {h} {what} ({fid})"})
 json.dump(d, open(p, 'w'), indent=1)
 s = open('/verif/DESIGN.md').read()
-marker = "\n\n`tools/fix_regress.py` keeps the repairs honest"
+marker = "\n\n**Recorded, not repaired (status `known`"
 row = f"\n| {fid} | {prop} | {what}. {how} | {subj[5:]} |"
 assert marker in s
 s = s.replace(marker, row + marker, 1)
